@@ -44,8 +44,21 @@ def rule_ctor(E, R):
             key_ok = c["m"] in ("sort", "sort_unstable") or any(x["m"] == "start" for x in exprs(c, "MethodCall"))
             R.check(key_ok, rule, fn, "sorted by range start", where=c["sp"])
         if merges:
-            clo = closure_of(merges[0][1]["args"][0])
+            # the merge callback: a closure written in place, or a private function passed by name
+            cb_arg = merges[0][1]["args"][0]
+            clo = closure_of(cb_arg)
             S = sem.Sem(E, hb)
+            in_cb = (lambda x: sem.within(x, clo))
+            if not clo:
+                d_ = deref(cb_arg)
+                r_ = d_.get("res", {}) if d_.get("k") == "Path" else {}
+                hf = None
+                if r_.get("r") == "def" and str(r_.get("dk", "")).startswith("Fn"):
+                    hf = E.hir(norm(r_.get("path", "")))
+                if hf is not None and "body" in hf:
+                    S = sem.Sem(E, hf)
+                    clo = {"params": hf.get("params", []), "body": hf["body"]}
+                    in_cb = (lambda x: True)
             ok = False
             assigns = []
             if clo and len(clo.get("params", [])) == 2:
@@ -62,7 +75,7 @@ def rule_ctor(E, R):
                 f = S.returns_true(clo["body"], S.root)
                 cm = [(op, l, r, fr) for op, l, r, fr, c in sem.weak_cmps(((f, True),)) if c] if f is not None else []
                 ok = len(cm) == 1 and cm[0][0] in ("Le", "Lt") and acc(cm[0][1], cm[0][3], "start", removed) and acc(cm[0][2], cm[0][3], "end", kept)
-                assigns = [x for x in S.sites() if sem.within(x, clo) and x.node.get("k") == "Assign"]
+                assigns = [x for x in S.sites() if in_cb(x) and x.node.get("k") == "Assign"]
                 ok = ok and len(assigns) >= 1
             R.check(ok, rule, fn, "the merge closure extends the kept range and drops the merged one",
                     "expected: remove the candidate iff candidate.start() <= kept.end(), extending the kept range", merges[0][1]["sp"])
